@@ -52,7 +52,7 @@ Fixpoint sorted_tree (n : node) : bool :=
 Definition sorted_otree (on : option node) : bool :=
   match on with Some n => sorted_tree n | None => true end.
 
-(** * The copy as LocalFileSystem.Copy performs it since repair c02copy: into a temporary
+(** * The copy as LocalFileSystem.Copy performs it since repair dc21685: into a temporary
       name next to the destination, then [os.RemoveAll(dst)] and [os.Rename(tmp, dst)];
       when the creation of some entry fails (a write error: disk full, file size limit),
       [os.RemoveAll(tmp)] and nothing else. *)
